@@ -621,7 +621,13 @@ class DeserializationMethodVisitor(
             method_by_cls = dict(
                 zip((f.cls for f in alt_factories if f.cls is not None), alt_methods)
             )
-            if NoneType in types and len(alt_methods) == 2:
+            # With coercion, None alternative can accept other data than None (""), so
+            # alternatives order matters and OptionalMethod is kept for Optional[T] order
+            if (
+                NoneType in types
+                and len(alt_methods) == 2
+                and (self.coercer is None or alt_factories[1].cls is NoneType)
+            ):
                 value_method = next(
                     meth
                     for fact, meth in zip(alt_factories, alt_methods)
